@@ -43,6 +43,7 @@ def run_generic(ctx, prop):
         n34 = independence.r34_run_idempotence(ctx, include=lambda c: in_scope(c.module.relpath))
         n34 += independence.r34_closure_state(ctx, include=lambda f: in_scope(f.module.relpath))
     n35 = independence.r35_stateful_defaults(ctx, include=lambda m: in_scope(m.relpath))
+    independence.r36_module_state(ctx, include=lambda m: in_scope(m.relpath))
     ctx.run.note('generic patterns on the anchored files: %d modules checked for default-argument objects their function changes (R35); ' % n35 +
                  ' %d class-level containers (R31), %d functions creating closures in loops '
                  '(R32), %d itertools.groupby sites (R33), %d step classes / step factories checked for state a run leaves to the '
